@@ -108,11 +108,19 @@ fn compile_perm_check(buffer: &mut String, check: &PermCheck) {
     buffer.push_str(&code)
 }
 
+/// Escape literal text of a format string: on top of [escape_string], a `~` would be read as a
+/// directive by Scheme's `format`
+fn escape_template(input: &str) -> String {
+    escape_string(input).replace('~', "~~")
+}
+
 fn literal(special: &FormatSpecial) -> String {
     match special {
         FormatSpecial::Alarm => "\\a".to_string(),
-        FormatSpecial::Ascii(val) => format!("{}", char::from_u32(*val as u32).unwrap_or('0')),
-        FormatSpecial::Backslash => "\\".to_string(),
+        FormatSpecial::Ascii(val) => {
+            escape_template(&char::from_u32(*val as u32).unwrap_or('0').to_string())
+        }
+        FormatSpecial::Backslash => "\\\\".to_string(),
         FormatSpecial::Backspace => "\\b".to_string(),
         FormatSpecial::CarriageReturn => "\\r".to_string(),
         FormatSpecial::Clear => "\\c".to_string(),
@@ -245,7 +253,7 @@ impl TargetScheme for Vec<FormatElement> {
         let template = self
             .iter()
             .map(|el| match el {
-                FormatElement::Literal(s) => Ok(s.clone()),
+                FormatElement::Literal(s) => Ok(escape_template(s)),
                 FormatElement::Field(f) => placeholder(f).map(|s| s.to_string()),
                 FormatElement::Special(v) => Ok(literal(v)),
             })
